@@ -46,6 +46,7 @@ impl Check for C17 {
         let big = tier == Tier::Thorough && r.chance(1, 25);
         let (mc, mr) = if big { (80, 24) } else { (20, 10) };
         let (cols, rows) = gen_size(r, mc, mr);
+        let (cols, rows) = if r.chance(1, 400) { gigantic_size(r) } else { (cols, rows) };
         let cfg = Config { cols, rows, limit: *r.pick(&[None, None, Some(0), Some(3)]) };
         let mut p = Profile::base();
         p.fam[F_SAVE] = 30;
@@ -58,6 +59,7 @@ impl Check for C17 {
         p.fam[F_TEXT] = 16;
         p.fam[F_RESET] = 3;
         p.fam[F_STRINGS] = 1;
+        p.fam[F_COMBO] = 8;
         if r.chance(1, 3) {
             p = p.swarm(r);
             p.fam[F_SAVE] = p.fam[F_SAVE].max(10);
@@ -181,7 +183,7 @@ impl Check for C17 {
                     // auto-wrap: printing in the last column parks the cursor past it iff auto-wrap is on
                     {
                         let mut fk = replay_plain(&t.config, &prefix);
-                        fk.feed_str("\x1b[9999CX");
+                        fk.feed_str("\x1b[65535C\x1b[65535CX");
                         let got = fk.cursor().col == cols;
                         if got != exp.awm {
                             return Verdict::Violation { rule: "C17/auto-wrap-mode".into(), detail: format!("{}: auto-wrap after the restore is {}", ctx_s, got) };
